@@ -21,7 +21,7 @@ EXHAUSTIVE = {"quick": True, "thorough": True}
 
 SCHEMA = [Opt("i", "int", 0, 1), Opt("f", "float", 0, 0.25), Opt("s", "str", 0, b"d"), Opt("l", "int", LIST, [b"1"]), Opt("sec", "sec", 0, None, "-", [Opt("x", "int", 0, 0), Opt("hook", "func", 0, None, "U")]),
           Opt("m", "sec", MULTI | TITLE, None, "-", [Opt("y", "str", 0, None)]), Opt("include", "func", 0, None, "I"),
-          Opt("hook", "func", 0, None, "U")]
+          Opt("hook", "func", 0, None, "U"), Opt("ps", "str", 0, None, "p"), Opt("pl", "str", LIST, None, "p")]
 
 EVENTS = {
     "ok": [b"i = 2\ns = ok\n"],
@@ -103,6 +103,16 @@ def generate(rng, tier):
             lines += ["X 0 0", "X 1 0", "PB 0 " + hx(text), "D 0", "X 3 0", "PB 3 " + hx(PROBES[0]), "D 3"]
             cases.append(Case("n%d" % n, lines, {"hist": [("nested", 0)], "probe": 0, "nested": True}))
             n += 1
+    # value-parsing callbacks that start a scan themselves (parse a word / a text into context 1) and go on using the token
+    # text they were handed - an unquoted word lives in the scanner's own buffer, a quoted one in its scratch string
+    for t in (b"ps = nest:zz\ns = tail\ni = 4\n", b"ps = nest:i\nl = {3}\n", b'ps = "nest:i = 5\\n"\ns = q\n', b"pl = {nest:a, nest:bb, \"nest:i = 6\"}\ni = 2\n",
+              b"pl += nest:word\npl += nest:w2\ns = z\n", b'include("np.conf")\ns = after\n'):
+        cdir = "%s/n%d" % (root, n)
+        files = FILES + [("np.conf", b"ps = nest:inner\ni = 21\n")]
+        lines = schema_lines(SCHEMA) + ["CWD " + hx(cdir)] + ["FILE %s reg %s" % (hx(nm), hx(c)) for nm, c in files]
+        lines += ["X 0 0", "X 1 0", "PB 0 " + hx(t), "D 0", "X 3 0", "PB 3 " + hx(PROBES[0]), "D 3"]
+        cases.append(Case("n%d" % n, lines, {"hist": [("nested_parsecb", 0)], "probe": 0, "nested": True}))
+        n += 1
     # a callback that FREES another root context during a parse, after includes were used earlier in the process
     # (accepted, aborted, nested): the rest of the running text must still be read
     for pre in ([], [b'include("good.conf")\n'], [b'include("bad.conf")\n'], [b'include("good.conf")\n', b'include("self.conf")\n'],
